@@ -71,8 +71,8 @@ Theorem C03_distance_wei_diag_zero : forall n G D B, distance_wei n G = Some (D,
   forall i, (i < n)%nat -> D i i = Some 0 /\ B i i = 0%nat.
 Proof. exact distance_wei_diag_zero. Qed.
 
-(* ---------- breadthdist: soundness half + flag; the full statement fails with self-connections ---------- *)
-(* full statement: DistanceOther.breadthdist_full_statement (zero diagonal; NOT proved). *)
+(* ---------- breadthdist: soundness half + flag (model of the code after repo commit 4574619) ---------- *)
+(* full statement: DistanceOther.breadthdist_full_statement (NOT proved; tested). *)
 Theorem C03_breadthdist_partial : forall n C R D, breadthdist n C = Some (R, D) ->
   forall i j d, (i < n)%nat -> (j < n)%nat -> D i j = Some d -> (1 <= d)%nat /\ hasw n C d i j.
 Proof. exact breadthdist_partial. Qed.
@@ -80,10 +80,6 @@ Proof. exact breadthdist_partial. Qed.
 Theorem C03_breadthdist_reach_flag : forall n C R D, breadthdist n C = Some (R, D) ->
   forall i j, R i j = true <-> D i j <> None.
 Proof. exact breadthdist_reach_flag. Qed.
-
-Theorem C03_breadthdist_selfloop_refuted :
-  exists n C R D, breadthdist n C = Some (R, D) /\ ~ dist_correct n (Lbin C) (fun i j => olen_of_nat (D i j)).
-Proof. exact breadthdist_selfloop_refuted. Qed.
 
 (* ---------- reachdist: every finite entry is the EXACT minimum hop count; flag soundness ---------- *)
 (* full statement: DistanceReach.reachdist_full_statement (NOT proved: infinite entry => unreachable).
@@ -158,7 +154,6 @@ Print Assumptions C03_distance_wei_partial.
 Print Assumptions C03_distance_wei_diag_zero.
 Print Assumptions C03_breadthdist_partial.
 Print Assumptions C03_breadthdist_reach_flag.
-Print Assumptions C03_breadthdist_selfloop_refuted.
 Print Assumptions C03_reachdist_partial.
 Print Assumptions C03_reachdist_flag_partial.
 Print Assumptions C03_offdiag_pairs.
